@@ -42,13 +42,21 @@ type Route struct {
 
 // Behaviour strings understood by the scripted mock applications (carried in packet data):
 //
-//	ok | fail | async | panic, optionally prefixed by w<k> = write k markers first.
+//	ok | fail | async | panic | blob (success acknowledgement whose bytes are not the standard
+//	JSON acknowledgement) ..., optionally prefixed by w<k> = write k markers first and by z =
+//	try to send a new packet on the same channel from inside the timeout callback.
 type behav struct {
 	writes int
 	kind   string
+	resend bool // z<kind>: the application tries to send again from inside its timeout callback
 }
 
 func parseBehav(s string) behav {
+	if strings.HasPrefix(s, "z") && len(s) > 1 {
+		b := parseBehav(s[1:])
+		b.resend = true
+		return b
+	}
 	b := behav{kind: s}
 	if strings.HasPrefix(s, "w") && len(s) > 2 {
 		if k, err := strconv.Atoi(s[1:2]); err == nil {
@@ -106,7 +114,14 @@ type Tap struct {
 	Ack    []byte // ack callback argument
 	V2     bool
 	P1     channeltypes.Packet
+	OK     bool // resend: the send from inside the callback succeeded
 }
+
+// blobAck is a successful acknowledgement whose bytes are application-specific.
+type blobAck string
+
+func (a blobAck) Success() bool           { return true }
+func (a blobAck) Acknowledgement() []byte { return []byte(a) }
 
 // Core is the `core` profile: mock applications over every packet path kind.
 type Core struct {
@@ -405,6 +420,9 @@ func (p *Core) install(c *sim.Chain) {
 		switch b.kind {
 		case "ok":
 			return channeltypes.NewResultAcknowledgement([]byte(fmt.Sprintf("ack-%d", tag)))
+		case "blob":
+			// an application-specific acknowledgement: raw bytes, not the standard JSON envelope
+			return blobAck(fmt.Sprintf("\x00blob-ack-%d", tag))
 		case "async":
 			return nil
 		case "panic":
@@ -426,9 +444,16 @@ func (p *Core) install(c *sim.Chain) {
 		return nil
 	}
 	app.OnTimeoutPacket = func(ctx sdk.Context, _ string, pk channeltypes.Packet, _ sdk.AccAddress) error {
-		_, tag, idx, _ := parseData(pk.Data)
+		b, tag, idx, _ := parseData(pk.Data)
 		p.taps = append(p.taps, Tap{Chain: ci, Kind: "tmo", Tag: tag, PIdx: idx, ID: pk.SourcePort + "/" + pk.SourceChannel, Seq: pk.Sequence,
 			TxHash: txHashOf(ctx), Final: ctx.ExecMode() == sdk.ExecModeFinalize, Data: pk.Data, P1: pk})
+		if b.resend {
+			// a retrying application (what a forwarding middleware does): send again on the same channel
+			seq, err := c.App.IBCKeeper.ChannelKeeper.SendPacket(ctx, pk.SourcePort, pk.SourceChannel, clienttypes.ZeroHeight(),
+				uint64(ctx.BlockTime().Add(time.Hour).UnixNano()), []byte("resent-from-timeout-callback"))
+			p.taps = append(p.taps, Tap{Chain: ci, Kind: "resend", Tag: tag, PIdx: idx, ID: pk.SourcePort + "/" + pk.SourceChannel, Seq: seq,
+				TxHash: txHashOf(ctx), Final: ctx.ExecMode() == sdk.ExecModeFinalize, Data: pk.Data, P1: pk, OK: err == nil})
+		}
 		return nil
 	}
 	for _, m := range []*mockv2.IBCApp{c.App.MockModuleV2A.IBCApp, c.App.MockModuleV2B.IBCApp} {
@@ -442,7 +467,7 @@ func (p *Core) install(c *sim.Chain) {
 			p.taps = append(p.taps, Tap{Chain: ci, Kind: "recv", V2: true, Tag: tag, PIdx: idx, ID: dst, Seq: seq, TxHash: txHashOf(ctx), Final: ctx.ExecMode() == sdk.ExecModeFinalize, Data: pl.Value})
 			p.writeMarkers(ctx, c, tag, idx, b.writes)
 			switch b.kind {
-			case "ok":
+			case "ok", "blob":
 				return channeltypesv2.RecvPacketResult{Status: channeltypesv2.PacketStatus_Success, Acknowledgement: []byte(fmt.Sprintf("ack-%d.%d", tag, idx))}
 			case "async":
 				return channeltypesv2.RecvPacketResult{Status: channeltypesv2.PacketStatus_Async}
